@@ -1,4 +1,5 @@
 import SkgVerif.Lemmas.Direction
+import SkgVerif.Props.Transcribed.C13
 /-!
 # C13 — directional variograms obey the symmetries of direction
 -/
